@@ -181,48 +181,42 @@ def opPstrf : P String := do
     let f : Nat → Nat → Rat := if upper then fun i j => mget s.M j i else fun i j => mget s.M i j
     pure (s!"ok{ap} rank={rank}" ++ showPerm n s.P ++ showVals (flat n n f))
 
-def opSolve : P String := do
-  let tag ← word
-  let left ← parseSide (← ch)
-  let _ ← parseOr (← ch)
-  let kind ← ch
-  let _ ← ch
-  let n ← nat
-  let m0 ← nat
-  let A := matFn n (← nums (n * n))
-  let isVec := kind == 'v'
-  let m := if isVec then 1 else m0
-  let Bv ← nums (n * m)
-  done
-  -- right-hand side number k as a vector: column k (left) or row k (right); a vector rhs is k = 0
+inductive Res where
+  | skip
+  | exc (what : String)
+  | ok (approx : Bool) (vals : List Rat)
+
+/-- the solution of one system: `tag` ∈ tl tu tul tuu spd lu semi; right-hand side number `k` is
+column `k` (left) or row `k` (right) of the `n × m` / `m × n` array `Bv`; a vector rhs is `k = 0` -/
+def solveCore (tag : String) (left isVec : Bool) (n m : Nat) (A : Mat) (Bv : Array Rat) : Res :=
   let rhs (k : Nat) : Vec :=
     if isVec then vecFn Bv else if left then (fun i => Bv.getD (i * m + k) 0) else (fun i => Bv.getD (k * n + i) 0)
-  let finish (ap : String) (sol : Nat → Array Rat) : String :=
+  let finish (ap : Bool) (sol : Nat → Array Rat) : Res :=
     let cols := (List.range m).map sol |>.toArray
     let X (k i : Nat) : Rat := vget (cols.getD k #[]) i
-    if isVec then "ok" ++ ap ++ showVals ((List.range n).map fun i => X 0 i)
-    else if left then "ok" ++ ap ++ showVals (flat n m fun i k => X k i)
-    else "ok" ++ ap ++ showVals (flat m n fun k i => X k i)
-  let tri (t : Tri) : String :=
-    if triSingular t n A && m > 0 then "exc invalid_argument" else finish "" fun k => trsvArr t left n A (rhs k)
+    if isVec then .ok ap ((List.range n).map fun i => X 0 i)
+    else if left then .ok ap (flat n m fun i k => X k i)
+    else .ok ap (flat m n fun k i => X k i)
+  let tri (t : Tri) : Res :=
+    if triSingular t n A && m > 0 then .exc "invalid_argument" else finish false fun k => trsvArr t left n A (rhs k)
   match tag with
-  | "tl" => pure (tri ⟨false, false⟩)
-  | "tu" => pure (tri ⟨true, false⟩)
-  | "tul" => pure (tri ⟨false, true⟩)
-  | "tuu" => pure (tri ⟨true, true⟩)
+  | "tl" => tri ⟨false, false⟩
+  | "tu" => tri ⟨true, false⟩
+  | "tul" => tri ⟨false, true⟩
+  | "tuu" => tri ⟨true, true⟩
   | "spd" =>
     let small := n ≤ 5
     let L := cholCols (rsqrt small) n A
     let exact := rootsExact n A L
-    if !exact && !small then pure "skip" else
-    pure (finish (if exact then "" else " approx") fun k => cholSolveArr n L (rhs k))
+    if !exact && !small then .skip else
+    finish (!exact) fun k => cholSolveArr n L (rhs k)
   | "lu" =>
     let s := getrf n A
-    if s.fail then pure "exc invalid_argument" else
-    pure (finish "" fun k => if left then luSolveLeftArr n s (rhs k) else luSolveRightArr n s (rhs k))
+    if s.fail then .exc "invalid_argument" else
+    finish false fun k => if left then luSolveLeftArr n s (rhs k) else luSolveRightArr n s (rhs k)
   | "semi" =>
     match runPstrf n A with
-    | none => pure "skip"
+    | none => .skip
     | some (s, exact) =>
       let rank := s.rank.getD n
       let small := n ≤ 5
@@ -230,9 +224,145 @@ def opSolve : P String := do
       let G : Mat := fun a c => sum n fun i => F i a * F i c
       let C : Arr2 := if rank = n then #[] else cholCols (rsqrt small) rank G
       let exact2 := rank = n || rootsExact rank G C
-      if !exact2 && !small then pure "skip" else
-      pure (finish (if exact && exact2 then "" else " approx") fun k => semiApplyArr n (s, C) (rhs k))
-  | _ => pure "skip"
+      if !exact2 && !small then .skip else
+      finish (!(exact && exact2)) fun k => semiApplyArr n (s, C) (rhs k)
+  | _ => .skip
+
+def showRes : Res → String
+  | .skip => "skip"
+  | .exc w => "exc " ++ w
+  | .ok ap vals => "ok" ++ (if ap then " approx" else "") ++ showVals vals
+
+/-- the forms in which the harness writes / consumes the solve expression; all denote the same `X`
+(`r j p q m n`, and `t c l` where the transpose rewrite compiles: lazily consumed matrix solves, matrix right-hand sides only) -/
+def formKnown (form : Char) (isVec : Bool) : Bool :=
+  "siabexy".toList.contains form || (!isVec && "rjpqmntcl".toList.contains form)
+
+def opSolve : P String := do
+  let tag ← word
+  let left ← parseSide (← ch)
+  let _ ← parseOr (← ch)
+  let kind ← ch
+  let form ← ch
+  let n ← nat
+  let m0 ← nat
+  let isVec := kind == 'v'
+  if !(kind == 'v' || kind == 'r' || kind == 'c') || !formKnown form isVec then failure
+  let A := matFn n (← nums (n * n))
+  let m := if isVec then 1 else m0
+  let Bv ← nums (n * m)
+  done
+  pure (showRes (solveCore tag left isVec n m A Bv))
+
+/-- `decomp`: one decomposition object, `q` solve requests; the model of every request is the
+solve of the corresponding system tag (a decomposition object has no state besides its factor) -/
+def opDecomp : P String := do
+  let cls ← word
+  let _ ← parseOr (← ch)
+  let n ← nat
+  let q ← nat
+  let A0 := matFn n (← nums (n * n))
+  let mut reqs : Array (Bool × Bool × Nat × Array Rat) := #[]
+  for _ in [0:q] do
+    let left ← parseSide (← ch)
+    let kind ← ch
+    let m0 ← nat
+    if !(kind == 'v' || kind == 'r' || kind == 'c') then failure
+    let isVec := kind == 'v'
+    let m := if isVec then 1 else m0
+    let Bv ← nums (n * m)
+    reqs := reqs.push (left, isVec, m, Bv)
+  done
+  -- the symmetric classes read the lower triangle only
+  let Asym : Mat := fun i j => if j ≤ i then A0 i j else A0 j i
+  let (tag, A) ← (match cls with
+    | "chol" => pure ("spd", Asym)
+    | "chold" => pure ("spd", Asym)
+    | "lu" => pure ("lu", A0)
+    | "semi" => pure ("semi", A0)
+    | "eig" => pure ("eig", Asym)
+    | "eigd" => pure ("eig", Asym)
+    | _ => failure : P (String × Mat))
+  let mut approx := false
+  let mut vals : List Rat := []
+  for (left, isVec, m, Bv) in reqs do
+    match solveCore tag left isVec n m A Bv with
+    | .skip => return "skip"
+    | .exc w => return "exc " ++ w
+    | .ok ap v => approx := approx || ap; vals := vals ++ v
+  if cls == "semi" then
+    -- rank and compute_inverse_factor
+    match runPstrf n A with
+    | none => return "skip"
+    | some (s, exact) =>
+      let rank := s.rank.getD n
+      let small := n ≤ 5
+      let F : Mat := fun i j => mget s.M i j
+      let G : Mat := fun a c => sum n fun i => F i a * F i c
+      let C : Arr2 := if rank = n then #[] else cholCols (rsqrt small) rank G
+      let exact2 := rank = n || rootsExact rank G C
+      if !exact2 && !small then return "skip"
+      let IF := semiInverseFactor n (s, C)
+      let ap := approx || !(exact && exact2)
+      return "ok" ++ (if ap then " approx" else "") ++ s!" rank={rank}" ++ showVals (vals ++ flat rank n fun a c => mget IF a c)
+  pure ("ok" ++ (if approx then " approx" else "") ++ showVals vals)
+
+/-- `cholseq` / `cholup`: `cholesky_decomposition(A)`, `k` rank-one updates on the same object, then
+optionally a solve through the updated factor -/
+def runCholseq (n : Nat) (A : Mat) (ups : Array (Rat × Rat × Array Rat)) (side : Char) (b : Array Rat) : String := Id.run do
+  -- approximated roots only while few of them are chained (exact arithmetic on approximations blows up)
+  let small := n ≤ 5 && n * (ups.size + 1) ≤ 12
+  let r := rsqrt small
+  let C := cholCols r n A
+  if infoOf false n A C != 0 then return "skip"
+  let mut exact := rootsExact n A C
+  if !exact && !small then return "skip"
+  let mut L : Arr2 := matOf n n fun i j => mget C j i
+  let mut t := 0
+  for (alpha, beta, v) in ups do
+    if alpha ≤ 0 then return "skip"
+    if (exactSqrt alpha).isNone then exact := false
+    if !exact && !small then return "skip"
+    let s := cholUpdate r alpha beta n L (vecFn v)
+    -- every root taken so far (also before a thrown exception) must have been exact, or the system tiny
+    if !(s.xs.all fun x => (exactSqrt x).isSome) then exact := false
+    if !exact && !small then return "skip"
+    if s.fail then return s!"exc invalid_argument at={t}"
+    L := s.L
+    t := t + 1
+  let mut vals := flat n n fun i j => if j ≤ i then mget L i j else 0
+  if side != 'N' then
+    let Lc : Arr2 := matOf n n fun j i => mget L i j
+    let x := cholSolveArr n Lc (vecFn b)
+    vals := vals ++ (List.range n).map fun i => vget x i
+  return "ok" ++ (if exact then "" else " approx") ++ showVals vals
+
+def opCholseq : P String := do
+  let _ ← parseOr (← ch)
+  let n ← nat
+  let k ← nat
+  let A := matFn n (← nums (n * n))
+  let mut ups : Array (Rat × Rat × Array Rat) := #[]
+  for _ in [0:k] do
+    let alpha ← num
+    let beta ← num
+    let v ← nums n
+    ups := ups.push (alpha, beta, v)
+  let side ← ch
+  if !(side == 'L' || side == 'R' || side == 'N') then failure
+  let b ← (if side == 'N' then pure #[] else nums n)
+  done
+  pure (runCholseq n A ups side b)
+
+def opCholup : P String := do
+  let _ ← parseOr (← ch)
+  let n ← nat
+  let alpha ← num
+  let beta ← num
+  let A := matFn n (← nums (n * n))
+  let v ← nums n
+  done
+  pure (runCholseq n A #[(alpha, beta, v)] 'N' #[])
 
 def step (line : String) : String :=
   let toks := ((line.trimAscii.toString.splitOn " ").filter (· ≠ "")).toArray
@@ -248,6 +378,9 @@ def step (line : String) : String :=
   | "getrf" => run opGetrf
   | "pstrf" => run opPstrf
   | "solve" => run opSolve
+  | "decomp" => run opDecomp
+  | "cholseq" => run opCholseq
+  | "cholup" => run opCholup
   | _ => "skip"
 
 partial def loop (h : IO.FS.Stream) (out : IO.FS.Stream) : IO Unit := do
